@@ -846,16 +846,120 @@ def normalise_new(tree: ast.Module, known: Set[str], protected: Set[str], known_
 # list of such calls) and is never assigned elsewhere.
 
 
-def _is_path_const(e: ast.AST) -> bool:
+def literal_constants(sources: Dict[str, Tuple[str, str, bool]], known_vars: Dict[str, List[str]]) -> Dict[str, Dict[str, ast.Constant]]:
+    """module -> {name: Constant} for the module-level names bound exactly once to a str / bytes literal that the pinned tree does not have"""
+    out: Dict[str, Dict[str, ast.Constant]] = {}
+    for name, (_rel, src, _pkg) in sources.items():
+        try:
+            t = ast.parse(src)
+        except SyntaxError:
+            continue
+        stores: Dict[str, int] = {}
+        for n in ast.walk(t):
+            if isinstance(n, ast.Name) and isinstance(n.ctx, (ast.Store, ast.Del)):
+                stores[n.id] = stores.get(n.id, 0) + 1
+            elif isinstance(n, ast.Global):
+                for g in n.names:
+                    stores[g] = stores.get(g, 0) + 2
+        for st in t.body:
+            tgt, val = None, None
+            if isinstance(st, ast.Assign) and len(st.targets) == 1 and isinstance(st.targets[0], ast.Name):
+                tgt, val = st.targets[0].id, st.value
+            elif isinstance(st, ast.AnnAssign) and isinstance(st.target, ast.Name) and st.value is not None:
+                tgt, val = st.target.id, st.value
+            if tgt is not None and tgt not in known_vars.get(name, []) and stores.get(tgt) == 1 and isinstance(val, ast.Constant) and isinstance(val.value, (str, bytes)):
+                out.setdefault(name, {})[tgt] = val
+    return out
+
+
+def expand_literal_constants(tree: ast.Module, own: Dict[str, ast.Constant], imported: Dict[str, ast.Constant]) -> List[str]:
+    """a name bound once at module level to a string / bytes literal (here, or imported by name from a module of the package) is replaced by
+    the literal at each use: `open(loc, _WRITE_BINARY)`, `os.path.join(root, _BLOBS_DIR, key + _META_SUFFIX)` read like before the constant existed"""
+    binds: Dict[str, int] = {}
+    for n in ast.walk(tree):
+        if isinstance(n, ast.Name) and isinstance(n.ctx, (ast.Store, ast.Del)):
+            binds[n.id] = binds.get(n.id, 0) + 1
+        elif isinstance(n, ast.arg):
+            binds[n.arg] = binds.get(n.arg, 0) + 1
+        elif isinstance(n, (ast.FunctionDef, ast.AsyncFunctionDef, ast.ClassDef)):
+            binds[n.name] = binds.get(n.name, 0) + 1
+    consts = {k: v for k, v in own.items() if binds.get(k, 0) == 1}
+    consts.update({k: v for k, v in imported.items() if binds.get(k, 0) == 0})
+    if not consts:
+        return []
+    used: Dict[str, int] = {}
+
+    class T(ast.NodeTransformer):
+        def visit_Name(self, node: ast.Name) -> ast.AST:
+            if isinstance(node.ctx, ast.Load) and node.id in consts:
+                used[node.id] = used.get(node.id, 0) + 1
+                return ast.copy_location(ast.Constant(value=consts[node.id].value), node)
+            return node
+
+    T().visit(tree)
+    return [f"literal constant {k} expanded at {v} use(s)" for k, v in sorted(used.items())]
+
+
+def _enum_value(x: ast.AST, enums: Dict[str, str]) -> Optional[str]:
+    """`Functions.Load.value` -> 'load' (a member of an Enum of the package with a string value)"""
+    if isinstance(x, ast.Attribute) and x.attr == "value" and isinstance(x.value, ast.Attribute) and isinstance(x.value.value, ast.Name):
+        return enums.get(f"{x.value.value.id}.{x.value.attr}")
+    return None
+
+
+def _is_path_const(e: ast.AST, enums: Dict[str, str] = {}) -> bool:  # noqa: B006 (read only)
     if isinstance(e, ast.Call) and isinstance(e.func, ast.Attribute) and e.func.attr == "from_list" and len(e.args) == 1 and not e.keywords:
         l = e.args[0]
-        return isinstance(l, ast.List) and bool(l.elts) and all(isinstance(x, ast.Constant) and isinstance(x.value, str) for x in l.elts)
+        return isinstance(l, ast.List) and bool(l.elts) and all(
+            (isinstance(x, ast.Constant) and isinstance(x.value, str)) or _enum_value(x, enums) is not None for x in l.elts)
     if isinstance(e, (ast.Tuple, ast.List)) and e.elts:
-        return all(_is_path_const(x) for x in e.elts)
+        return all(_is_path_const(x, enums) for x in e.elts)
     return False
 
 
-def expand_path_constants(tree: ast.Module) -> List[str]:
+def _literal_path(e: ast.AST, enums: Dict[str, str]) -> ast.AST:
+    """the constant with enum member values written as the strings they are"""
+    e = copy.deepcopy(e)
+    for l in ast.walk(e):
+        if isinstance(l, ast.List):
+            l.elts = [ast.copy_location(ast.Constant(value=_enum_value(x, enums)), x) if _enum_value(x, enums) is not None else x for x in l.elts]
+    return e
+
+
+def package_constants(sources: Dict[str, Tuple[str, str, bool]]) -> Tuple[Dict[str, str], Dict[str, Dict[str, ast.AST]]]:
+    """(string values of the Enum members of the package, the canonical-path constants bound once at module level in each module)"""
+    enums: Dict[str, str] = {}
+    trees: Dict[str, ast.Module] = {}
+    for name, (_rel, src, _pkg) in sources.items():
+        try:
+            trees[name] = ast.parse(src)
+        except SyntaxError:
+            continue
+        for c in trees[name].body:
+            if isinstance(c, ast.ClassDef) and any(unparse_name(b).endswith("Enum") for b in c.bases):
+                for st in c.body:
+                    if isinstance(st, ast.Assign) and len(st.targets) == 1 and isinstance(st.targets[0], ast.Name) and isinstance(st.value, ast.Constant) and isinstance(st.value.value, str):
+                        enums[f"{c.name}.{st.targets[0].id}"] = st.value.value
+    consts: Dict[str, Dict[str, ast.AST]] = {}
+    for name, t in trees.items():
+        stores: Dict[str, int] = {}
+        for n in ast.walk(t):
+            if isinstance(n, ast.Name) and isinstance(n.ctx, (ast.Store, ast.Del)):
+                stores[n.id] = stores.get(n.id, 0) + 1
+        for st in t.body:
+            if isinstance(st, ast.Assign) and len(st.targets) == 1 and isinstance(st.targets[0], ast.Name) and _is_path_const(st.value, enums) and stores.get(st.targets[0].id) == 1:
+                consts.setdefault(name, {})[st.targets[0].id] = _literal_path(st.value, enums)
+    return enums, consts
+
+
+def unparse_name(e: ast.AST) -> str:
+    try:
+        return ast.unparse(e)
+    except Exception:
+        return ""
+
+
+def expand_path_constants(tree: ast.Module, enums: Dict[str, str] = {}, imported: Dict[str, ast.AST] = {}) -> List[str]:  # noqa: B006
     binds: Dict[str, List[ast.AST]] = {}
     for n in ast.walk(tree):
         if isinstance(n, ast.Name) and isinstance(n.ctx, (ast.Store, ast.Del)):
@@ -874,8 +978,12 @@ def expand_path_constants(tree: ast.Module) -> List[str]:
             tgt, val = st.targets[0], st.value
         elif isinstance(st, ast.AnnAssign) and isinstance(st.target, ast.Name) and st.value is not None:
             tgt, val = st.target, st.value
-        if tgt is not None and _is_path_const(val) and len(binds.get(tgt.id, [])) == 1:
-            consts[tgt.id] = val
+        if tgt is not None and _is_path_const(val, enums) and len(binds.get(tgt.id, [])) == 1:
+            consts[tgt.id] = _literal_path(val, enums)
+    # constants of another module of the package imported by name (`from .introspect import _dds_keep_path`), never re-bound here
+    for nm, val in imported.items():
+        if len(binds.get(nm, [])) == 1 and isinstance(binds[nm][0], ast.ImportFrom):
+            consts[nm] = val
     if not consts:
         return []
     used: Dict[str, int] = {}
